@@ -80,14 +80,42 @@ func c11History(t *testing.T) (h c11Hist) {
 		synctest.Wait()
 		h.states = append(h.states, c11Dump(s))
 		c := &pb.Silence{MatcherSets: vMatchersB(), StartsAt: ts(time.Now()), EndsAt: ts(time.Now().Add(time.Hour)), Comment: strings.Repeat("long comment ", 12), Annotations: map[string]string{"k": "v", "ticket": "42"}}
-		if err := s.Set(ctx, c); err != nil {
-			panic(err)
+		// the third silence is learned by gossip (created through another instance's API)
+		{
+			c.Id = "cccccccc-0000-4000-8000-00000000000c"
+			c.UpdatedAt = ts(time.Now())
+			mb, err := marshalMeshSilence(&pb.MeshSilence{Silence: c, ExpiresAt: ts(c.EndsAt.AsTime().Add(time.Hour))})
+			if err != nil {
+				panic(err)
+			}
+			if err := s.Merge(mb); err != nil {
+				panic(err)
+			}
 		}
 		time.Sleep(50 * time.Second) // tick 2
 		synctest.Wait()
 		h.states = append(h.states, c11Dump(s))
 		if err := s.Expire(ctx, a.Id); err != nil {
 			panic(err)
+		}
+		time.Sleep(50 * time.Second) // tick 3: a snapshot after a purely in-place local change (same ids, same number of silences)
+		synctest.Wait()
+		h.states = append(h.states, c11Dump(s))
+		// and a peer extended the second one: a changed version of a known id, again by gossip only
+		{
+			s.mtx.RLock()
+			nb := cloneSilence(s.st[b.Id].Silence)
+			s.mtx.RUnlock()
+			nb.EndsAt = ts(time.Now().Add(90 * time.Minute))
+			nb.UpdatedAt = ts(time.Now())
+			nb.Comment = "extended elsewhere"
+			mb, err := marshalMeshSilence(&pb.MeshSilence{Silence: nb, ExpiresAt: ts(nb.EndsAt.AsTime().Add(time.Hour))})
+			if err != nil {
+				panic(err)
+			}
+			if err := s.Merge(mb); err != nil {
+				panic(err)
+			}
 		}
 		close(stopc) // shutdown snapshot
 		<-done
@@ -172,8 +200,17 @@ func TestVerifC11Silences(t *testing.T) {
 		return
 	}
 	h := c11History(t)
-	if len(h.states) != 4 || vfs.Renames(h.log, len(h.log)) != 3 {
-		t.Fatalf("history did not produce 3 snapshots: %d states, %d renames, log %d ops", len(h.states), vfs.Renames(h.log, len(h.log)), len(h.log))
+	if d, err, pan := c11Load(h.final); err != nil || pan != nil || d != h.states[4] {
+		R := rep.New("C11", "silences-crash")
+		R.Violate("shutdown-snapshot-does-not-hold-the-current-silences", fmt.Sprintf("after two local creations, a gossiped creation, a local expiry, a gossiped extension and a clean shutdown the files load to a state that differs from the store in memory at shutdown (err %v, panic %v, %d completed snapshots)", err, pan, vfs.Renames(h.log, len(h.log))), map[string]any{"rerun": true, "part": "silences-crash"})
+		R.Write()
+		return
+	}
+	if len(h.states) != 5 || vfs.Renames(h.log, len(h.log)) != 4 {
+		R := rep.New("C11", "silences-crash")
+		R.Violate("state-change-not-followed-by-a-snapshot", fmt.Sprintf("the history changes the store before each of four snapshots, but %d were completed", vfs.Renames(h.log, len(h.log))), map[string]any{"rerun": true, "part": "silences-crash"})
+		R.Write()
+		return
 	}
 	// ---- crash images ------------------------------------------------------------------------
 	{
@@ -230,7 +267,7 @@ func TestVerifC11Silences(t *testing.T) {
 		R := rep.New("C11", "silences-loader")
 		snap := h.final[c11Path]
 		full, _, _ := c11Load(map[string][]byte{c11Path: snap})
-		if full != h.states[3] {
+		if full != h.states[4] {
 			R.Violate("round-trip-differs", "snapshot -> load does not reproduce the state", map[string]any{"rerun": true, "part": "silences-loader"})
 		}
 		// record boundaries
